@@ -572,6 +572,18 @@ def _dec_paths(ints, i):
 # ----------------------------------------------------------------------------------------------------------
 # running the model
 # ----------------------------------------------------------------------------------------------------------
+def _big_stack():
+    """the extracted model is structurally recursive on lists (not tail-recursive): on timelines of > 100 runs probed instant
+    by instant the default 8 MiB stack of the child process is not always enough; raise its soft limit to the hard limit"""
+    import resource
+    try:
+        soft, hard = resource.getrlimit(resource.RLIMIT_STACK)
+        want = hard if hard != resource.RLIM_INFINITY else resource.RLIM_INFINITY
+        resource.setrlimit(resource.RLIMIT_STACK, (want, hard))
+    except Exception:
+        pass
+
+
 def run_model_raw(progs_encoded):
     """progs_encoded: list of programs, each a list of int lists. Returns list of list of int lists."""
     inp = []
@@ -579,7 +591,8 @@ def run_model_raw(progs_encoded):
         for op in p:
             inp.append(' '.join(str(x) for x in op))
         inp.append('.')
-    res = subprocess.run([MODEL_BIN], input='\n'.join(inp) + '\n', capture_output=True, text=True, check=True)
+    res = subprocess.run([MODEL_BIN], input='\n'.join(inp) + '\n', capture_output=True, text=True, check=True,
+                         preexec_fn=_big_stack)
     out, cur = [], []
     for line in res.stdout.split('\n'):
         if line == '.':
@@ -687,10 +700,14 @@ class Impl:
             except Exception as x:  # an exception the model cannot express
                 res = _exc_name(x)
             if HANDED_OUT:
-                try:
-                    res = copy.deepcopy(res)
-                except Exception:
-                    pass
+                # the answer is normally a canonical value built by step(); copy it only if it IS (or directly holds) a handed-out container
+                ids_ = {id(r) for r in HANDED_OUT}
+                if id(res) in ids_ or (isinstance(res, (list, tuple, dict, set)) and len(res) < 100000 and
+                                       any(id(x) in ids_ for x in (res.values() if isinstance(res, dict) else res))):
+                    try:
+                        res = copy.deepcopy(res)
+                    except Exception:
+                        pass
                 scribble_handed_out()
             if q and before is not None and self._stamp(op[1]) != before:
                 res = 'IMPURE-QUERY: %s changed the graph it was asked about' % (op[0],)
